@@ -65,7 +65,8 @@ theorem cloneOntoAt_spec (h : Heap) (hw : h.WF) (t : Nat) (old : HVal) (vOld : V
     (hF : ∀ x, x ∈ Ft → x < h.next) (hfuel : need vOld ≤ fuel)
     (sa : Nat) (hs : HVal) (x : V) (Fs : List Nat) (hsrc : fieldsAt h sa = some hs) (hrs : Rep h hs x Fs)
     (hFs : ∀ a, a ∈ Fs → a < h.next) (hfx : need x ≤ fuel) :
-    ∃ h' new Fn, cloneOntoAt fuel h t sa = some h' ∧ ObjUpd h h' t Ft new x Fn [] := by
+    ∃ h' new Fn, cloneOntoAt fuel h t sa = some h' ∧ ObjUpd h h' t Ft new x Fn []
+      ∧ ∀ a, a ∈ Fn → h.next ≤ a ∧ a < h'.next := by
   have hcn := cloneNewH_build h hw sa hs x Fs fuel hsrc hrs hFs hfx
   generalize hb : buildNew h x = r at hcn
   obtain ⟨c, h1⟩ := r
@@ -77,7 +78,8 @@ theorem cloneOntoAt_spec (h : Heap) (hw : h.WF) (t : Nat) (old : HVal) (vOld : V
   have hcc : g2.cell c = some (.val new) := by rw [hc2 c hct, if_neg hcFt, hc]
   obtain ⟨h4, hf4, c4⟩ := Cleared.free g2 c _ hcc
   have hcell4 : ∀ a, a ≠ c → h4.cell a = g2.cell a := fun a hne => by rw [c4.2 a]; simp [hne]
-  refine ⟨h4, new, Fn, by simp [cloneOntoAt, hcn, getHV, hc, hin, hf4], ?_⟩
+  refine ⟨h4, new, Fn, by simp [cloneOntoAt, hcn, getHV, hc, hin, hf4], ?_,
+    fun a ha => by have := hrange a ha; rw [c4.1, hn2]; exact this⟩
   apply ObjUpd.ofFresh
   · exact Cleared.wf c4 hw2
   · rw [c4.1, hn2]; exact e1.le
